@@ -87,6 +87,14 @@ static void stage_table(Run &R) {
             ds.push_back(u + "." + u); ds.push_back(u);
             R.count("idn-rows");
         }
+        // long U-label prefixes: the UTF-8 spelling exceeds 255 / 512 octets while the A-label form stays valid; the class is still that of the last label
+        if (r % 8 == 0 || (T.ulabels.size() == T.puny.rows.size() && T.ulabels[r] != t)) {
+            const Bytes &last = (T.ulabels.size() == T.puny.rows.size()) ? T.ulabels[r] : t;
+            for (uint32_t unit : {0x436u, 0x4E2Du}) for (int nl : {2, 3, 4}) for (int n : {30, 40, 42, 55}) {
+                Bytes d; for (int k = 0; k < nl; k++) { for (int i = 0; i < n; i++) d += ref::utf8_encode(unit + (i * 3 + k) % 20); d += '.'; }
+                ds.push_back(d + last); if (last != t) ds.push_back(d + t);
+            }
+        }
         for (const Bytes &d : ds) { total++; if (!run_one(R, d)) return; }
     }
     R.space("C07 all " + std::to_string(T.puny.rows.size()) + " table rows x {3 case variants x 4 prefixes, every proper prefix and suffix, 8 one-character extensions, substitutions, neighbours, first-label use, single label, U-label forms}", total * R.a.nworkers);
